@@ -208,6 +208,9 @@ def oracle_c14(r):
             break
     if m == 2 and r["view"]["n_palpable"] != len(r["view"]["events"]):
         out.append((None, "catch: palpable objects and recorded counts differ in number"))
+    if m == 2 and "expect_fruits" in r["view"] and strip(m, r["full"])[0] != r["view"]["expect_fruits"]:
+        out.append((None, f"catch: {strip(m, r['full'])[0]} fruits reported but the map has "
+                          f"{r['view']['expect_fruits']} circles + slider heads, repeats and tails"))
     return out
 
 
